@@ -177,11 +177,11 @@ def _compact(r):
 
 def sweep(tier, seed, weights=None):
     count, shards = SIZES[tier]
-    boxcfgs = list(C.box(tier)) + list(C.large_n_probes(tier)) + list(C.deep_repeat_probes(tier))
+    boxcfgs = list(C.box(tier)) + list(C.deep_repeat_probes(tier))
     box_results = R.pmap(_exec, boxcfgs)
     gen = R.pmap(_shard, [(tier, seed, s, count, weights) for s in range(shards)], chunksize=1)
     gen_results = [r for part in gen for r in part]
-    seqs = sibling_sequences(tier)
+    seqs = sibling_sequences(tier) + [[c] for c in C.large_n_probes(tier)]     # large-n probes: cold cache, one pristine child each
     seq_results = [x for part in R.pmap(_exec_seqs, R.chunks(seqs, 64), chunksize=1) for x in part]
     return boxcfgs, box_results, gen_results, seq_results
 
@@ -193,8 +193,8 @@ def run(prop, args):
     boxcfgs, box_results, gen_results, seq_results = sweep(args.tier, args.seed, C09_WEIGHTS if prop == "C09" else None)
     N = 10 if args.tier == "quick" else 24
     rep.exhaustive = [{"box": "every class variant, n<=%d, all unit counts 0..n+1 (HRevolve RAM<=6, DISK<=4), all splits/trajectories/storages, period<=6, binomial_snapshots<=4, 6 cost vectors" % N,
-                       "cases": len(boxcfgs) - len(list(C.large_n_probes(args.tier))) - 4, "exhaustive": True},
-                      {"box": "large-n probes: 14 configs per n in %s" % (list(C.LARGE_N) + ([] if args.tier == "quick" else [401, 512, 513])),
+                       "cases": len(boxcfgs) - 4, "exhaustive": True},
+                      {"box": "large-n probes, each in a pristine process (cold memo tables): 14 configs per n in %s" % (list(C.LARGE_N) + ([] if args.tier == "quick" else [401, 512, 513, 2000])),
                        "cases": len(list(C.large_n_probes(args.tier))), "exhaustive": True},
                       {"box": "deep repetition probes: %d adjoint passes (beyond the default recursion limit) on SingleMemory, SingleDisk(copy), TwoLevel x2" % (
                           1300 if args.tier == "quick" else 5000), "cases": 4, "exhaustive": True}]
@@ -239,9 +239,9 @@ def run(prop, args):
                         rep.add_violation((C.variant(r["cfg"]), pred), r["cfg"], detail)
                     else:
                         rep.add_violation((C.variant(r["cfg"]), pred), {"sequence": seq[:i + 1]}, detail + " [after %s in the same process]" % C.describe(seq[0]), kind="sequence")
-    rep.extra["sibling_sequences"] = len(seq_results)
+    rep.extra["sibling_sequences"] = len(seq_results) - len(list(C.large_n_probes(args.tier)))
     rep.exhaustive.append({"box": "ordered sibling pairs (equal parameters, other Revolve-family class; other RAM/DISK split, storage, trajectory, period, unit count), each pair in one pristine process",
-                           "cases": len(seq_results), "exhaustive": True})
+                           "cases": len(seq_results) - len(list(C.large_n_probes(args.tier))), "exhaustive": True})
     R.run_regress(rep, lambda data: check_witness(prop, data))
     if not rep.samples:
         for r in gen_results[:5]:
